@@ -221,7 +221,7 @@ def plan(tier, seed):
     specs.append(dict(name="pairs-1", kind="pairs", which=1, tier=tier))
     specs.append(dict(name="pairs-2", kind="pairs", which=2, tier=tier))
     for i in range(4):
-        specs.append(dict(name="streams-%d" % i, kind="streams", n=800 if tier == "quick" else 8000))
+        specs.append(dict(name="streams-%d" % i, kind="streams", n=1000 if tier == "quick" else 40000))
     for i in range(6):
         specs.append(dict(name="fault+silence-%d" % i, kind="fault+silence", part=i, tier=tier))
     return specs
